@@ -103,7 +103,7 @@ def sequence_vs_fresh(tier, seed):
     for k, ((kind, body), a, b) in enumerate(zip(seq, got, alone)):
         if a != b:
             fails.append({'what': f'message {k} of the sequence decodes differently than alone in a fresh process', 'input': {'index': k, 'sequence': [(kd, bd.hex()) for kd, bd in seq[: k + 1]]}, 'in_sequence': json.dumps(a)[:500], 'fresh': json.dumps(b)[:500]})
-    return {'evaluations': len(seq), 'distinct_nontrivial': len({(k, b) for k, b in seq}), 'bound': f'one sequence of {n} UPDATEs over four sessions (4-byte eBGP, 2-byte iBGP, iBGP with and without AIGP) with repeated and cross-session attribute blocks, shared AIGP values in blocks that differ elsewhere, malformed repeats, with and without withdrawn routes; decode caches on as the server sets them; each message compared with a fresh interpreter', 'rule': 'one case = one message position in the sequence; distinct = distinct (session, bytes)', 'samples': [{'kind': k, 'body': b.hex()[:120]} for k, b in seq[:3]], 'failures': fails[:10]}
+    return {'evaluations': len(seq), 'distinct_nontrivial': len({(k, b) for k, b in seq}), 'bound': f'(both processes hold the SAME set of encoders: what one encoder does to another is the subject of event-counter-per-encoder) one sequence of {n} UPDATEs over four sessions (4-byte eBGP, 2-byte iBGP, iBGP with and without AIGP) with repeated and cross-session attribute blocks, shared AIGP values in blocks that differ elsewhere, malformed repeats, with and without withdrawn routes; decode caches on as the server sets them; each message compared with a fresh interpreter', 'rule': 'one case = one message position in the sequence; distinct = distinct (session, bytes)', 'samples': [{'kind': k, 'body': b.hex()[:120]} for k, b in seq[:3]], 'failures': fails[:10]}
 
 
 @replayer('C19', 'sequence-vs-fresh')
